@@ -25,6 +25,13 @@ Definition expected_timeouts : list (string * list string) := [
   ("handshake_ntn_server", ["Propose"; "Confirm"]);
   ("handshake_ntc_client", []);
   ("handshake_ntc_server", []);
+  (* ProtocolOptions.Mode omitted (zero value): the table that the constructor's base state map
+     selection implies - handshake falls back to the node-to-node map, chain-sync to the
+     node-to-client map ("callers who omit Mode get consistent NtC behaviour": no timeouts) *)
+  ("handshake_mode0_client", ["Propose"; "Confirm"]);
+  ("handshake_mode0_server", ["Propose"; "Confirm"]);
+  ("chainsync_mode0_client", []);
+  ("chainsync_mode0_server", []);
   ("chainsync_ntn_client", cs_ntn);
   ("chainsync_ntn_server", cs_ntn);
   ("chainsync_ntc_client", []);
@@ -96,3 +103,12 @@ Definition offending (gs : list gentry) : list (string * string * bool * bool) :
   app (flat_map bad_rows gs)
   (flat_map (fun e => if existsb (fun g => String.eqb (fst (fst (fst g))) (fst e)) gs then []
                         else [(fst e, "<automaton missing from the generated table>", false, true)]) expected_timeouts).
+
+(* every package whose constructors branch on ProtocolOptions.Mode (list generated by go/ast) has the
+   three columns NtN, NtC, Mode-omitted in the generated table, for both roles *)
+Definition has_table (gs : list gentry) (nm : string) : bool :=
+  existsb (fun g => String.eqb (fst (fst (fst g))) nm) gs.
+Definition missing_columns (gs : list gentry) (pkgs : list string) : list string :=
+  flat_map (fun p => filter (fun nm => negb (has_table gs nm))
+     (map (fun suf => String.append p suf)
+          ["_ntn_client"; "_ntn_server"; "_ntc_client"; "_ntc_server"; "_mode0_client"; "_mode0_server"])) pkgs.
